@@ -2270,6 +2270,9 @@ struct Explorer {
   }
 
   // ---- replay of one history with a printed trace -----------------------------------------------------
+  bool replay_json = false;
+  J replay_steps = J::Arr();
+
   int Replay(const vector<Step>& hist) {
     World w;
     for (auto& d : sc.dirs) w.disk.MkdirP(d);
@@ -2283,7 +2286,7 @@ struct Explorer {
     bool abnormal = false;
     for (size_t i = 0; i < hist.size(); ++i) {
       const Op& op = sc.ops[hist[i].op];
-      dprintf(100, "--- step %zu: %s\n", i, op.label.c_str());
+      if (!replay_json) dprintf(100, "--- step %zu: %s\n", i, op.label.c_str());
       if (op.kind != Op::kNinja) { ApplySimple(op, &w.disk); continue; }
       vfs::Disk before = w.disk;
       RunConfig rcfg = op.cfg;
@@ -2301,14 +2304,34 @@ struct Explorer {
         abnormal = true;
         continue;
       }
-      if (r.exit_code == -777 || r.choices != hist[i].choices) {
+      bool symbolic = false;
+      for (int cz : hist[i].choices) if (cz < 0) symbolic = true;
+      if (!symbolic && (r.exit_code == -777 || r.choices != hist[i].choices)) {
         // a shorter recorded choice list is a prefix: fine; anything else is a divergence
         bool prefix_ok = r.choices.size() >= hist[i].choices.size() &&
                          equal(hist[i].choices.begin(), hist[i].choices.end(), r.choices.begin());
         if (!prefix_ok) { dprintf(100, "REPLAY DIVERGED\n"); return 2; }
       }
+      if (replay_json) {
+        J stp = J::Obj();
+        stp.set("step", (long long)i);
+        stp.set("exit", r.exit_code);
+        stp.set("hang", r.hang);
+        stp.set("started", StartedList(r));
+        J fin = J::Arr();
+        for (auto& e : r.events) if (e.kind == Event::kFinish) fin.push(r.cmds[e.cmd].spec.id());
+        stp.set("finished_in_order", fin);
+        stp.set("no_work", r.out.find("ninja: no work to do.") != string::npos);
+        stp.set("out", r.out);
+        J files = J::Obj();
+        for (auto& kv : w.disk.files)
+          if (!kv.second.dir && kv.first != kLog && kv.first != kDeps && kv.first != ".ninja_lock") files.set(kv.first, kv.second.data);
+        stp.set("files", files);
+        replay_steps.push(stp);
+      } else {
       dprintf(100, "%s", r.out.c_str());
       dprintf(100, "    exit=%d hang=%d started=%s\n", r.exit_code, r.hang, js::Dump(StartedList(r)).c_str());
+      }
       bool abnormal_after = abnormal;  // monitors of this step see the state before it
       for (auto& e : r.events) if (e.kind == Event::kInterrupt) abnormal_after = true;
       for (auto& c : r.cmds) if (c.finished && c.status == 130) abnormal_after = true;
@@ -2358,6 +2381,7 @@ struct Explorer {
       }
       abnormal = abnormal_after;
     }
+    if (replay_json) { dprintf(100, "%s\n", js::Dump(replay_steps).c_str()); return bad ? 1 : 0; }
     for (auto& kv : w.disk.files)
       dprintf(100, "    %-14s %s t=%lld %s\n", kv.first.c_str(), kv.second.dir ? "d" : "f", (long long)kv.second.mtime,
               kv.first[0] == '.' ? "" : vx::JsonEscape(kv.second.data.substr(0, 40)).c_str());
@@ -2431,6 +2455,12 @@ int main(int argc, char** argv) {
       st.tear = (int)s["tear"].num(-1);
       st.orphans = (unsigned)s["orphans"].num(0);
       hist.push_back(st);
+    }
+    if (a.Has("json")) {
+      ex.replay_json = true;
+      ex.props.insert("none");
+      ex.Replay(hist);
+      return 0;
     }
     int rc1 = ex.Replay(hist);
     dprintf(100, "=== second replay\n");
